@@ -45,9 +45,12 @@ type call struct {
 	Exc uint8 `json:"exc,omitempty"`
 }
 
+// slowDialKey: context value (a time.Duration) that makes the harness's dial function take that long, whatever happens to the context
+type slowDialKey struct{}
+
 type closer struct {
 	AtRequest int    `json:"at_request"`
-	Op        string `json:"op"` // close | connect | close-connect
+	Op        string `json:"op"` // close | connect | close-connect | connect-cancelled (Connect whose context ends while the dial is still going on)
 }
 
 type concCase struct {
@@ -172,7 +175,7 @@ func runConc(c concCase) harness.Result {
 	}
 	var do func(context.Context, packet.Request) (packet.Response, error)
 	var closeFn func() error
-	var connectFn func() error
+	var connectFn, connectCancelledFn func() error
 	if isSerial(c.Kind) {
 		mon.IdleRead = time.Duration(c.ReadBlockUs) * time.Microsecond
 		sp := serialPort{mon.NewConn()}
@@ -190,7 +193,13 @@ func runConc(c concCase) harness.Result {
 		connectFn = func() error { return nil }
 	} else {
 		conf := modbus.ClientConfig{ReadTimeout: readTimeout, WriteTimeout: time.Second,
-			DialContextFunc: func(ctx context.Context, address string) (net.Conn, error) { return mon.NewConn(), nil }}
+			DialContextFunc: func(ctx context.Context, address string) (net.Conn, error) {
+				// a dial function that does not return early when the context ends (a wrapper around net.DialTimeout or tls.Dial)
+				if d, ok := ctx.Value(slowDialKey{}).(time.Duration); ok {
+					time.Sleep(d)
+				}
+				return mon.NewConn(), nil
+			}}
 		if c.Hooks {
 			conf.Hooks = &racyHooks{}
 		}
@@ -218,6 +227,11 @@ func runConc(c concCase) harness.Result {
 		}
 		do, closeFn = cl.Do, cl.Close
 		connectFn = func() error { return cl.Connect(context.Background(), "arrival:1") }
+		connectCancelledFn = func() error {
+			ctx, cancel := context.WithTimeout(context.WithValue(context.Background(), slowDialKey{}, 3*time.Millisecond), 300*time.Microsecond)
+			defer cancel()
+			return cl.Connect(ctx, "arrival:1")
+		}
 	}
 	// closers fire when the n-th request arrives at the transport
 	var closerWG sync.WaitGroup
@@ -252,6 +266,13 @@ func runConc(c concCase) harness.Result {
 					_ = closeFn()
 				case "connect":
 					_ = connectFn()
+				case "connect-cancelled":
+					// the context of the Connect call ends while the dial is still going on
+					if connectCancelledFn != nil {
+						_ = connectCancelledFn()
+					} else {
+						_ = connectFn()
+					}
 				default:
 					_ = closeFn()
 					_ = connectFn()
@@ -497,7 +518,7 @@ func genConc(t *rapid.T) concCase {
 	}
 	if rapid.IntRange(0, 2).Draw(t, "closers") == 0 {
 		k := rapid.IntRange(1, 3).Draw(t, "nclosers")
-		ops := []string{"close", "connect", "close-connect"}
+		ops := []string{"close", "connect", "close-connect", "connect-cancelled"}
 		if isSerial(c.Kind) {
 			ops = []string{"close"} // the serial client has no Connect
 		}
